@@ -20,7 +20,7 @@ MANIFEST = dict(
     text="Inductive-step symbolic check on the real dispatchers: for every request skeleton (object members over the kind alphabet with a symbolic method name that the solver resolves to a plain function, a context-taking function, a class-based view method, "
          "a JSON-schema validated method or no method; 0..2-element batches) one dispatch with a FRESH context object must leave the fingerprint of all library-held state unchanged (a deep structural snapshot of everything reachable from the dispatcher object - registry, Method objects and their attributes, middleware chain, handler table -, the "
          "error-class registry, every module-level mutable object or library object instance (e.g. the default validator) and every functools.lru_cache of the imported pjrpc modules incl. their sizes -- found by a scan that is recomputed on every run), a symbolic probe request dispatched afterwards must be answered exactly as on a fresh dispatcher, "
-         "and (on each path's concrete witness, in the plain interpreter) the context object must be collectable after gc. Unchanged fingerprint per step => histories of any length, N in {1, 10, 1000} included, by induction.",
+         "and (on each path's concrete witness, in the plain interpreter) the context object must be collectable after gc. Also: a first request to a method that fails inside the library's preparation for that method (a user exclusion hook raising for that one request) leaves nothing half-done behind. Unchanged fingerprint per step => histories of any length, N in {1, 10, 1000} included, by induction.",
     ref='5 C13',
     note="NOT covered (no thread model in a Python-level symbolic executor): dispatching from several threads. NOT covered: PydanticValidator (compiled pydantic_core; unusable under the installed pydantic). "
          "'Collectable by the GC' is decided on the concrete witness of every path (weakref + gc.collect), not by the solver. S14: lru_cache live under tracing (cache keys in pjrpc are concrete objects).",
@@ -56,6 +56,8 @@ def obligations(tier):
             obs.append({'h': 'step', 'disp': disp, 'k': [kj, ki, km, kp]})
         for first in ('echo', 'ctxm', 'vm', 'js', 'vjs', 'pos', 'nosuch', 'whoami', 'ping', 'boomctx', 'push'):
             obs.append({'h': 'probe', 'disp': disp, 'first': first, '_budget': 90.0})
+        for passing, passing2 in it.product(('pos', 'named'), repeat=2):
+            obs.append({'h': 'disturb', 'disp': disp, 'passing': passing, 'passing2': passing2})
         for n in (0, 1, 2):
             for combo in it.product(ELS, repeat=n):
                 obs.append({'h': 'step_batch', 'disp': disp, 'els': list(combo), '_budget': 90.0})
@@ -400,5 +402,70 @@ def h_step_batch(ob):
                 docs.append(d)
             return docs
         return _step(env, ob, make_doc)
+
+    return run
+
+
+def _add_hk(d, flag, is_async):
+    """A method validated by a BaseValidator whose exclusion hook fails while `flag[0]` is set (the hook itself is stateless)."""
+    from pjrpc.server.validators import base as vbase
+
+    def hook(name, annotation, default):
+        if flag[0] and name == 'b':
+            raise RuntimeError('hook failed')
+        return False
+
+    v = vbase.BaseValidator(exclude_param=hook)
+    if is_async:
+        async def hk(a, b=2):
+            return [a, b]
+    else:
+        def hk(a, b=2):
+            return [a, b]
+    d.add(v.validate(hk), name='hk')
+
+
+def h_disturb(ob):
+    """The FIRST request to a method fails inside the library's own preparation for that method (a user hook raises for that
+    one request); the failure is reported, nothing half-done is kept, and later requests are answered as on a fresh dispatcher."""
+    def run(env):
+        wire = Wire(env)
+        is_async = ob['disp'] == 'async'
+        flag = [False]
+        with env.untraced():
+            d = _build_dispatcher(env, wire, ob['disp'])
+            fresh = _build_dispatcher(env, wire, ob['disp'])
+            _add_hk(d, flag, is_async)
+            _add_hk(fresh, [False], is_async)
+            before = _fingerprint(d)
+        x = env.int('x')
+        params = [x] if ob['passing'] == 'pos' else {'a': x}
+        doc = {'jsonrpc': '2.0', 'id': 1, 'method': 'hk', 'params': params}
+        flag[0] = True
+        try:
+            first = _dispatch(d, ob['disp'], wire.encode(doc), Ctx())
+        except Exception as e:
+            raise Violation('raised:' + type(e).__name__, doc)
+        finally:
+            flag[0] = False
+        r = wire.decode(first[0])
+        if 'error' not in r:
+            raise Violation('failing-preparation-not-reported', r)
+        with env.untraced():
+            after = _fingerprint(d)
+        env.reached()
+        changed = _diff(before, after)
+        if changed:
+            raise Violation('library-state-changed:' + ','.join(changed), doc)
+        y = env.int('y')
+        pdoc = {'jsonrpc': '2.0', 'id': 2, 'method': 'hk', 'params': [y] if ob['passing2'] == 'pos' else {'a': y, 'b': 5}}
+        try:
+            a = _dispatch(d, ob['disp'], wire.encode(pdoc), Ctx())
+            b = _dispatch(fresh, ob['disp'], wire.encode(pdoc), Ctx())
+        except Exception as e:
+            raise Violation('probe-raised:' + type(e).__name__, pdoc)
+        if not same_json(_strip(wire.decode(a[0])), _strip(wire.decode(b[0]))) or a[1] != b[1]:
+            raise Violation('probe-answer-depends-on-history', (doc, pdoc, a, b))
+        return ['disturbed-ok']
 
     return run
